@@ -4,6 +4,7 @@ import (
 	"context"
 	"fmt"
 	"net"
+	"os"
 	"sort"
 	"testing"
 	"testing/synctest"
@@ -211,6 +212,7 @@ func run(t *testing.T, sc scenario) (out outcome) {
 }
 
 func judge(r *mon.Rec, t *testing.T, sc scenario) {
+	r.Current(sc)
 	r.Eval(1)
 	f := fam(sc.Fam)
 	budget := sc.T * time.Duration((int64(1)<<uint(sc.N))-1)
@@ -366,6 +368,9 @@ func grid(quick bool) []scenario {
 func TestCheck(t *testing.T) {
 	r := mon.New("C11")
 	defer r.Flush()
+	if os.Getenv("VERIF_REPLAY") == "" {
+		r.Watchdog(60 * time.Second)
+	}
 	var sc scenario
 	if mon.ReplayCase(&sc) {
 		judge(r, t, sc)
